@@ -221,8 +221,19 @@ Checks(r) ==
 \* ------------------------------------------------- Level I prediction of the recorded transition (drift measure)
 \* "agree" | "drift" | "gray" (outside the model) | "n/a" (action not modelled / receiver not observed)
 Five(o) == Url(Scheme5(o), Netloc5(o), Path5(o), Query5(o), Frag5(o))
+\* long texts are outside the (recursive, quadratic) Level I evaluation: judged by the Level A clauses only
+TextSmall(t) == Len(t) <= 300
+ArgsSmall(r) ==
+  CASE r.act = "ctor" -> TextSmall(r.args.s)
+    [] r.act = "build" -> \A f \in DOMAIN r.args.kw \cap {"scheme", "authority", "host", "path", "query_string", "fragment"} : TextSmall(r.args.kw[f])
+    [] r.act \in {"with_scheme", "with_host", "with_path", "with_name", "with_suffix", "truediv"} -> TextSmall(r.args.v)
+    [] r.act \in {"with_user", "with_password", "with_fragment"} -> (r.args.v = <<>> \/ TextSmall(r.args.v[1]))
+    [] r.act = "joinpath" -> \A i \in 1..Len(r.args.vs) : TextSmall(r.args.vs[i])
+    [] r.act \in {"with_query", "extend_query"} -> TextSmall(r.args.q.s) /\ Len(r.args.q.pairs) <= 8
+    [] OTHER -> TRUE
 Agreement(r) ==
   IF r.act \notin Modelled \/ "out" \notin DOMAIN r \/ "be" \notin DOMAIN r THEN "n/a"
+  ELSE IF ~ArgsSmall(r) \/ (Has_(r, "self") /\ Ok(r.self.val) /\ Len(Path5(r.self)) + Len(Query5(r.self)) + Len(Netloc5(r.self)) + Len(Frag5(r.self)) > 400) THEN "n/a"
   ELSE IF r.act \notin {"ctor", "build"} /\ ~Has_(r, "self") THEN "n/a"
   ELSE IF r.act = "join" /\ (~Has_(r, "other") \/ ~Ok(r.other)) THEN "n/a"
   ELSE IF ~OutOk(r) /\ r.out.exc = "n/a" THEN "n/a"
